@@ -3,7 +3,7 @@
    const_expr.rs, producers.rs, the name section.  Validation itself is wasmparser's and is a
    premise of the theorems; every `?`/bail!/unwrap of walrus's own code is [PErr]/[PPanic]. *)
 From Coq Require Import List NArith ZArith Bool. Import ListNotations.
-From WV Require Import Gen.Ops Model.Common Model.IR Model.Arena Model.ParseFn Model.ModuleM.
+From WV Require Import Gen.Ops Model.Common Model.IR Model.Arena Model.ParseFn Model.ModuleM Gen.Attrs.
 Open Scope N_scope.
 
 (* Result of parsing: Ok, an error returned to the caller, or a panic *)
@@ -93,15 +93,15 @@ Definition parse_import (m : wir) (ids : i2ids) (i : wimport) : pres (wir * i2id
       let '(ia, _) := aalloc (m_imports m) {| im_module := wi_module i; im_name := wi_name i; im_kind := MI_Func fid |} in
       POk (set_imports (set_funcs m fa) ia, push_func ids fid)
   | WI_Table t =>
-      let '(ta, tid) := aalloc (m_tables m) {| tb_64 := wt_64 t; tb_init := wt_init t; tb_max := wt_max t; tb_elem := wt_elem t; tb_import := Some imp; tb_segs := []; tb_name := None |} in
+      let '(ta, tid) := aalloc (m_tables m) (gen_parse_table_import t imp) in
       let '(ia, _) := aalloc (m_imports m) {| im_module := wi_module i; im_name := wi_name i; im_kind := MI_Table tid |} in
       POk (set_imports (set_tables m ta) ia, push_table ids tid)
   | WI_Mem mm =>
-      let '(ma, mid) := aalloc (m_memories m) {| me_shared := wm_shared mm; me_64 := wm_64 mm; me_init := wm_init mm; me_max := wm_max mm; me_page := wm_page mm; me_import := Some imp; me_segs := []; me_name := None |} in
+      let '(ma, mid) := aalloc (m_memories m) (gen_parse_memory_import mm imp) in
       let '(ia, _) := aalloc (m_imports m) {| im_module := wi_module i; im_name := wi_name i; im_kind := MI_Mem mid |} in
       POk (set_imports (set_memories m ma) ia, push_memory ids mid)
   | WI_Global g =>
-      let '(ga, gid) := aalloc (m_globals m) {| gl_ty := wg_ty g; gl_mut := wg_mut g; gl_shared := wg_shared g; gl_kind := GK_Import imp; gl_name := None |} in
+      let '(ga, gid) := aalloc (m_globals m) (gen_parse_global_import g imp) in
       let '(ia, _) := aalloc (m_imports m) {| im_module := wi_module i; im_name := wi_name i; im_kind := MI_Global gid |} in
       POk (set_imports (set_globals m ga) ia, push_global ids gid)
   end.
@@ -128,14 +128,14 @@ Fixpoint parse_tables (m : wir) (ids : i2ids) (l : list wtable) : wir * i2ids :=
   match l with
   | [] => (m, ids)
   | t :: r =>
-      let '(ta, tid) := aalloc (m_tables m) {| tb_64 := wt_64 t; tb_init := wt_init t; tb_max := wt_max t; tb_elem := wt_elem t; tb_import := None; tb_segs := []; tb_name := None |} in
+      let '(ta, tid) := aalloc (m_tables m) (gen_parse_table_local t) in
       parse_tables (set_tables m ta) (push_table ids tid) r
   end.
 Fixpoint parse_mems (m : wir) (ids : i2ids) (l : list wmem) : wir * i2ids :=
   match l with
   | [] => (m, ids)
   | mm :: r =>
-      let '(ma, mid) := aalloc (m_memories m) {| me_shared := wm_shared mm; me_64 := wm_64 mm; me_init := wm_init mm; me_max := wm_max mm; me_page := wm_page mm; me_import := None; me_segs := []; me_name := None |} in
+      let '(ma, mid) := aalloc (m_memories m) (gen_parse_memory_local mm) in
       parse_mems (set_memories m ma) (push_memory ids mid) r
   end.
 Fixpoint parse_globals (m : wir) (ids : i2ids) (l : list (wglobalty * wconst)) : pres (wir * i2ids) :=
@@ -143,7 +143,7 @@ Fixpoint parse_globals (m : wir) (ids : i2ids) (l : list (wglobalty * wconst)) :
   | [] => POk (m, ids)
   | (g, c) :: r =>
       init <-- eval_const ids c ;;
-      let '(ga, gid) := aalloc (m_globals m) {| gl_ty := wg_ty g; gl_mut := wg_mut g; gl_shared := wg_shared g; gl_kind := GK_Local init; gl_name := None |} in
+      let '(ga, gid) := aalloc (m_globals m) (gen_parse_global_local g init) in
       parse_globals (set_globals m ga) (push_global ids gid) r
   end.
 
